@@ -159,7 +159,7 @@ def run_shard(tier, seed, shard, nshards, tally: Tally, scale=1.0):
 
     from ..scenario import Objective
 
-    strat = st.tuples(scenarios({"families": Objective.FAMILIES + ["nanhole"]}), st.integers(0, 10**6), st.integers(0, 10**6))
+    strat = st.tuples(scenarios({"families": Objective.FAMILIES + ["nanhole"], "allow_cache": True}), st.integers(0, 10**6), st.integers(0, 10**6))
     fs = hyp_drive(PROP, strat, body, tally=tally, max_examples=n, seed=shard_seed(seed, shard), kind="rerun")
     for f in fs:
         if isinstance(f.case, list):
